@@ -136,6 +136,9 @@ type Options struct {
 	NoBigJumps bool
 	// LFInData allows LF in entry data (ircserver level only; the API cuts there).
 	AllowLF bool
+	// OmitDurations: generated configurations sometimes leave out SessionExpiration and/or
+	// PostMessageCooloff (zero values in force)
+	OmitDurations bool
 }
 
 type Gen struct {
@@ -381,8 +384,21 @@ func (g *Gen) genConfig(t *rapid.T) Config {
 		// durations are not always whole seconds
 		exp += time.Duration(rapid.SampledFrom([]int{500, 250, 1, 999}).Draw(t, "expms")) * time.Millisecond
 	}
-	fmt.Fprintf(&b, "SessionExpiration = %q\n", exp.String())
-	fmt.Fprintf(&b, "PostMessageCooloff = %q\n", []string{"0s", "0s", "0s", "0s", "0s", "1500ms", "250ms", "1.25s"}[pickW(t, "cooloff", 1, 1, 1, 1, 1, 1, 1, 1)])
+	// a configuration may leave out either duration: the key then has its zero value (config.FromString
+	// does not start from DefaultConfig), which every node has to keep through save and load as well
+	omitExp, omitCooloff := false, false
+	if g.opt.OmitDurations {
+		omitExp, omitCooloff = pickW(t, "expomitted", 5, 1) == 1, pickW(t, "cooloffomitted", 5, 1) == 1
+	}
+	if omitExp {
+		c.ExpSec = 0
+	} else {
+		fmt.Fprintf(&b, "SessionExpiration = %q\n", exp.String())
+	}
+	cooloff := []string{"0s", "0s", "0s", "0s", "0s", "1500ms", "250ms", "1.25s"}[pickW(t, "cooloff", 1, 1, 1, 1, 1, 1, 1, 1)]
+	if !omitCooloff {
+		fmt.Fprintf(&b, "PostMessageCooloff = %q\n", cooloff)
+	}
 	if pickW(t, "maxsess", 5, 1) == 1 {
 		c.MaxSess = rapid.IntRange(2, 8).Draw(t, "maxsessn")
 		fmt.Fprintf(&b, "MaxSessions = %d\n", c.MaxSess)
@@ -1353,8 +1369,9 @@ func GenConfig(t *rapid.T) Config {
 	return g.genConfig(t)
 }
 
-// GenConfigOdd is GenConfig plus operator and services tables with duplicate or empty fields.
+// GenConfigOdd is GenConfig plus operator and services tables with duplicate or empty fields, and
+// configurations that leave out a duration.
 func GenConfigOdd(t *rapid.T) Config {
-	g := New(Options{OddTables: true})
+	g := New(Options{OddTables: true, OmitDurations: true})
 	return g.genConfig(t)
 }
